@@ -19,6 +19,7 @@ from ..common.logger import resonaateLogError, resonaateLogWarning
 from ..physics.bodies import Earth
 from .dynamics_base import Dynamics, DynamicsErrorFlag
 from .integration_events.finite_thrust import ScheduledFiniteThrust
+from .integration_events.scheduled_impulse import ScheduledImpulse
 
 # Type Checking Imports
 if TYPE_CHECKING:
@@ -133,6 +134,14 @@ class Celestial(Dynamics, metaclass=ABCMeta):
                         :,
                         None,
                     ]
+
+        # A scheduled impulse fires once: drop it so that the restarted integration, which begins
+        # within rounding error of the impulse time, cannot detect (and apply) it again.
+        events[:] = [
+            event
+            for event_index, event in enumerate(events)
+            if not (isinstance(event, ScheduledImpulse) and t_events[event_index].size > 0)
+        ]
 
         return current_state
 
